@@ -307,7 +307,7 @@ Definition evaluate_core (code : codevariant) (pl : platform) (k : kcfg) (o : or
                                                       (o_eval_timer o n) pop)))
   else
     (after_eval (c_rng c) clean c,
-     res_to_flow (fst (E.sequential_evaluate (o_objective o) (o_eval_timer o n) pop))).
+     res_to_flow (fst (E.sequential_evaluate (o_objective o) None (o_eval_timer o n) pop))).
 
 Definition evaluate (code : codevariant) (pl : platform) (k : kcfg) (v : vcfg) (o : oracles) (pop : list ind)
   : M (list ind) :=
@@ -536,12 +536,13 @@ Definition export_eqb (a b : export) : bool :=
   && nats_eqb (x_result a) (x_result b).
 
 (* clauses of the property, by what was varied between the base run and the other run *)
-Inductive clause := CRepeat | CHashSeed | CProgress | CLogging | CWorkers | CWorkersFrom2 | CWorkersIsolated | CFacade.
+Inductive clause := CRepeat | CHashSeed | CProgress | CLogging | CWorkers | CWorkersFrom2 | CWorkersIsolated | CFacade
+                  | CWorkersRepeat.
 Definition clause_eqb (a b : clause) : bool :=
   match a, b with
   | CRepeat, CRepeat | CHashSeed, CHashSeed | CProgress, CProgress | CLogging, CLogging
   | CWorkers, CWorkers | CWorkersFrom2, CWorkersFrom2 | CWorkersIsolated, CWorkersIsolated
-  | CFacade, CFacade => true
+  | CFacade, CFacade | CWorkersRepeat, CWorkersRepeat => true
   | _, _ => false
   end.
 
@@ -677,9 +678,10 @@ Definition holds_clause (cl : clause) (cs : case) : bool :=
 
 Definition holds_b (cs : case) : bool :=
   forallb (fun cl => holds_clause cl cs)
-          [CRepeat; CHashSeed; CProgress; CLogging; CWorkers; CWorkersFrom2; CWorkersIsolated; CFacade].
+          [CRepeat; CHashSeed; CProgress; CLogging; CWorkers; CWorkersFrom2; CWorkersIsolated; CFacade;
+           CWorkersRepeat].
 
 Definition verdicts (cs : case) : list bool :=
   [agree cs; holds_clause CRepeat cs; holds_clause CHashSeed cs; holds_clause CProgress cs;
    holds_clause CLogging cs; holds_clause CWorkers cs; holds_clause CWorkersFrom2 cs;
-   holds_clause CWorkersIsolated cs; holds_clause CFacade cs].
+   holds_clause CWorkersIsolated cs; holds_clause CFacade cs; holds_clause CWorkersRepeat cs].
